@@ -172,7 +172,9 @@ func c04model(c *Ctx, ruleFold, ruleIter string) {
 						want = oBox{min64(want.minx, q.x), min64(want.miny, q.y), max64(want.maxx, q.x), max64(want.maxy, q.y)}
 					}
 				}
-				if !ok || got != want {
+				if hasTop(p.s) {
+					v.unk = fmt.Sprintf("%s.Bounds() = %s", g.name, showVal(p.s))
+				} else if !ok || got != want {
 					v.msg = fmt.Sprintf("%s.Bounds() = %s, the smallest box around its %d vertices is %s", g.name, showVal(p.s), len(g.verts), want)
 				}
 			case "Points":
